@@ -10,6 +10,7 @@ PROPS = {
     "C03": _crdt("C03", 2500, 3000),
     "C04": _crdt("C04", 3000, 4000),
     "C05": _crdt("C05", 1500, 2000),
+    "C16": _crdt("C16", 3000, 4000),
     "C19": {"jobs": [{"pkg": "order", "run": "^TestC19$", "checks_quick": 60000, "checks_thorough": 150000, "shards_thorough": 16}]},
 }
 
